@@ -1054,6 +1054,31 @@ func srcSwitches(repo string, b *strings.Builder) bool {
 			dumpFresh = dumpFresh && marshals == 1
 		}
 	}
+	// redactTLSConfig (run on a COPY of the struct, whose maps and slices are still the live ones) only assigns the
+	// PrivateKey field: no call (no in-place redactor on anything reachable from its argument), no loop, no other assignment
+	tlsShallow := false
+	if _, f6, err := ParseGoFile(repo, "pkg/configmanager/effectiveconfig.go"); err == nil {
+		if rt := FindFunc(f6, "", "redactTLSConfig"); rt != nil && rt.Type.Params != nil && len(rt.Type.Params.List) == 1 && len(rt.Type.Params.List[0].Names) == 1 {
+			p := rt.Type.Params.List[0].Names[0].Name
+			tlsShallow = true
+			ast.Inspect(rt.Body, func(n ast.Node) bool {
+				switch x := n.(type) {
+				case *ast.CallExpr, *ast.RangeStmt, *ast.ForStmt, *ast.GoStmt, *ast.DeferStmt:
+					tlsShallow = false
+				case *ast.AssignStmt:
+					for _, l := range x.Lhs {
+						if exprStr(l) != p+".PrivateKey" {
+							tlsShallow = false
+						}
+					}
+				case *ast.IncDecStmt:
+					tlsShallow = false
+				}
+				return true
+			})
+		}
+	}
+	fmt.Fprintf(b, "(* redactTLSConfig only assigns the PrivateKey field of its argument: nothing reachable through the argument's maps / slices is written *)\nDefinition src_redact_tls_shallow := %v.\n", tlsShallow)
 	fmt.Fprintf(b, "(* DumpJSON returns freshly marshalled bytes (no pooled buffer, nothing released that the result may alias) *)\nDefinition src_dump_fresh_bytes := %v.\n", dumpFresh)
 	fmt.Fprintf(b, "(* transferConfig returns the output of json.MarshalIndent as it is (no processing of the text) *)\nDefinition src_transfer_returns_marshal := %v.\n", transferPlain)
 	fmt.Fprintf(b, "Definition src_redact_copies_servers := %v.\n", copiesServers && copiesListeners)
